@@ -151,6 +151,11 @@ class Theory:
             for _, v in sorted(inst.items()):
                 if not v.is_tconst():
                     raise TheoryException("When overloading %s with %s: cannot instantiate to type variables" % (aT, T))
+
+            # Each instance of an overloaded constant can be declared only once
+            if (name, T) in self.get_data("overload_inst"):
+                raise TheoryException("Constant %s :: %s already exists" % (name, T))
+            self.add_data("overload_inst", (name, T), True)
         else:
             # Make sure this name does not already occur in the theory
             if self.has_term_sig(name):
@@ -547,6 +552,7 @@ def EmptyTheory():
     thy.add_data_type("theorems_svar")  # cache of version of theorem with SVar.
     thy.add_data_type("attributes")
     thy.add_data_type("overload")
+    thy.add_data_type("overload_inst")  # declared instances of overloaded constants
 
     # Fundamental types.
     thy.add_type_sig("bool", 0)
